@@ -709,6 +709,10 @@ func (h *hist) consume(names []enc.Name, scripts []string) string {
 			mu.Unlock()
 			return true
 		})
+		// let the client's run goroutine finish the work of this call before the next Consume is
+		// issued: otherwise the order of the first Interests of two calls (segfetch vs outpipe
+		// channel, Go's select) would depend on the scheduler
+		synctest.Wait()
 	}
 	fin := 0
 	time.Sleep(137 * time.Nanosecond)
